@@ -316,7 +316,7 @@ CHECKS = {
         "level_text": "exploration: generated operation sequences on one row with net-update laws checked after every step",
         "level_note": "the merge of reference-driven changes into a transaction is checked by TestC11Refs on whole transactions (old model = row before, new model = row after, unchanged rows not named; the modify difference by checkUpdate in every L1 history)",
         "technique": "property-based testing (rapid): stateful sequences, algebraic net-update laws against first-old/last-new",
-        "tests": [{"name": "TestC11", "quick": 100000, "thorough": 8000000}, {"name": "TestC11Refs", "quick": 6000, "thorough": 400000}],
+        "tests": [{"name": "TestC11", "quick": 100000, "thorough": 8000000}, {"name": "TestC11Refs", "quick": 6000, "thorough": 120000}],
     },
     "C13": {
         "rule": "model family in {hand-written struct cloned through JSON (15 mapped fields of every kind), generated struct with its own deep copy "
